@@ -8,7 +8,7 @@
    the absolute storage bits [8*cf_offset + cf_bitshift, + cf_bitsize). *)
 From Coq Require Import ZArith List Bool Lia.
 Import ListNotations.
-From Cffi Require Import C01.Spec C01.Model C01.Arith C01.Proofs.
+From Cffi Require Import C01.Gen C01.Spec C01.Model C01.Arith C01.Proofs.
 Open Scope Z_scope.
 
 (* "No declaration in this class is rejected": every declaration of the class (see
